@@ -27,7 +27,7 @@ import (
 var trustedSites = map[string]string{
 	// gbn.Send: the caller's own payload, never relay-chosen; the chunk arithmetic itself is decided by C14 (CHUNK-2).
 	"BND|(*gbn.GoBackNConn).Send|slice(param#1,phi,(load(gbn.config.maxChunkSize)+phi))": "local payload; chunk arithmetic decided by C14 CHUNK-2",
-	"BND|(*gbn.GoBackNConn).Send|slice(param#1,phi,)":                                              "local payload; chunk arithmetic decided by C14 CHUNK-2",
+	"BND|(*gbn.GoBackNConn).Send|slice(param#1,phi,)":                                    "local payload; chunk arithmetic decided by C14 CHUNK-2",
 	// NoiseConn.Write: the caller's own buffer.
 	"BND|(*mailbox.NoiseConn).Write|slice(param#1,phi,(phi+phi))": "local buffer; chunk loop clamps chunkSize to the remainder (C15 RDC-3)",
 	// AEAD plaintexts: len(plaintext) = len(ciphertext) - 16 for a successful Open, and the ciphertext buffers have fixed sizes;
